@@ -130,7 +130,8 @@ func newC14Case(synced bool) *c14Case {
 }
 
 func runC14(c *Ctx) {
-	c.Rule = "histories of Enforce and invalidating / non-invalidating calls on the real CachedEnforcer and SyncedCachedEnforcer (seeded random to length 40, plus all histories of depth <= 3 (quick) / 4 (thorough) over a 15-call alphabet on a listed and an unlisted rule, slice and variadic forms, both batch orders, x both enforcers x with and without a failing watcher), request tuples over strings that include the key separator ('$$', '$', '1:a', '@3:abc$$', empty, multi-byte), EnforceContext and uncacheable parameters, cache on/off, lifetime 0 / 300 ms with real sleeps, every third case with a watcher whose notifications fail (management calls then return (true, err) with the change applied); the underlying enforcer's current answer is read through the embedded enforcer before every cached Enforce; every served answer is compared with the Lean model and must lie in the admissible set of C14.served_was_given; non-trivial = a history that repeats a request tuple and contains an invalidating call; distinct = whole history"
+	c.Rule = "histories of Enforce and invalidating / non-invalidating calls on the real CachedEnforcer and SyncedCachedEnforcer (seeded random to length 40, plus all histories of depth <= 3 (quick) / 4 (thorough) over a 15-call alphabet on a listed and an unlisted rule, slice and variadic forms, both batch orders, x both enforcers x with and without a failing watcher), request tuples over strings that include the key separator ('$$', '$', '1:a', '@3:abc$$', empty, multi-byte), EnforceContext and uncacheable parameters, cache on/off, lifetime 0 / 300 ms with real sleeps, every third case with a watcher whose notifications fail (management calls then return (true, err) with the change applied); the underlying enforcer's current answer is read through the embedded enforcer before every cached Enforce; every served answer is compared with the Lean model and must lie in the admissible set of C14.served_was_given; a recording cache supplied through SetCache must be used exactly like the built-in one (key, value, lifetime; Delete / Clear at the invalidating calls); non-trivial = a history that repeats a request tuple and contains an invalidating call; distinct = whole history"
+	c14CustomCache(c)
 	fields := []string{"alice", "a$$b", "c", "a", "b$$c", "", "$", "1:a", "@3:abc$$", "é", "read", "data1"}
 	rules := [][]string{{"alice", "data1", "read"}, {"a$$b", "c", "read"}, {"a", "b$$c", "read"}, {"", "", ""}, {"é", "$", "1:a"}}
 	nRandom := 300
